@@ -161,6 +161,28 @@ impl<'a> Runner<'a> {
         r
     }
 
+    /// a fresh node started on a disk image the way the binaries start: ConsensusThread::on_init
+    pub fn boot(&self, files: std::collections::BTreeMap<String, Vec<u8>>) -> (String, Option<Node>) {
+        let io = crate::sim::SimIo::with_files(files);
+        let clock = crate::sim::SimClock::new(T0 + 50_000_000);
+        let mut f = crate::fullnode::FullNode::new(self.node.key, self.world.cfg(), io, clock);
+        let rt = self.rt;
+        let r = guarded(|| {
+            rt.block_on(async {
+                use saito_core::core::process::process_event::ProcessEvent;
+                f.consensus.on_init().await;
+            })
+        });
+        f.consensus.generate_genesis_block = false;
+        match r {
+            Ok(()) => {
+                let crate::fullnode::FullNode { node, .. } = f;
+                ("ok".to_string(), Some(node))
+            }
+            Err(p) => (format!("Panic:{}", p), None),
+        }
+    }
+
     pub fn tip_label(&self) -> String {
         let h = self
             .rt
@@ -648,6 +670,110 @@ pub fn run_scenario(
                     trace.emit(json!({"ev": "Skip", "scn": scn_no, "i": r.step_no, "why": e}));
                 }
             },
+            "restart" => {
+                // clean shutdown and start from the block files (C12)
+                let pre = r.state(&r.node);
+                let files = r.node.io.files();
+                wd.pet(&format!("scn {} step {} restart", scn_no, r.step_no));
+                let (res, booted) = r.boot(files);
+                wd.pause();
+                if let Some(n) = booted {
+                    r.node = n;
+                }
+                // heights at which the disk holds more than one block (a competing branch)
+                let competing = {
+                    let files = r.node.io.files();
+                    let mut per_id: std::collections::BTreeMap<u64, usize> = Default::default();
+                    for b in r.blocks.values() {
+                        let suffix = format!("-{}.sai", hex::encode(b.block.hash));
+                        if files.keys().any(|k| k.ends_with(&suffix)) {
+                            *per_id.entry(b.block.id).or_default() += 1;
+                        }
+                    }
+                    per_id.values().filter(|n| **n > 1).count()
+                };
+                trace.emit(json!({"ev": "Restart", "scn": scn_no, "i": r.step_no, "res": res, "pre": pre, "st": r.state(&r.node), "tag": st.tag,
+                    "competing": competing}));
+                if res != "ok" {
+                    break;
+                }
+            }
+            "crashscan" => {
+                // the process dies after any prefix of the storage operations so far, the last write complete,
+                // absent or torn; each image is booted on a scratch node (the scenario's node is not touched)
+                let hist = r.node.io.history();
+                let pretip = r.tip_label();
+                let mut cuts: Vec<usize> = (0..=hist.len()).collect();
+                let limit = st.amount.max(12) as usize;
+                if cuts.len() > limit {
+                    // the most recent operations and an even spread over the older ones
+                    let recent: Vec<usize> = cuts[cuts.len() - limit / 2..].to_vec();
+                    let stride = (cuts.len() - limit / 2) / (limit / 2).max(1);
+                    let mut older: Vec<usize> = (0..cuts.len() - limit / 2).step_by(stride.max(1)).collect();
+                    older.extend(recent);
+                    cuts = older;
+                }
+                for cut in cuts {
+                    let mut variants: Vec<(String, Option<usize>)> = vec![("complete".into(), None)];
+                    if cut > 0 && hist[cut - 1].0 && hist[cut - 1].1.ends_with(".sai") {
+                        let len = hist[cut - 1].2.len();
+                        // byte classes of a torn block file: nothing, inside the header, exactly the header, inside the
+                        // transactions, one byte short
+                        for (name, k) in [("empty", 0usize), ("in-header", 120), ("header", 389), ("in-tx", 389 + (len.saturating_sub(389)) / 2), ("short", len.saturating_sub(1))] {
+                            if k < len {
+                                variants.push((name.to_string(), Some(k)));
+                            }
+                        }
+                    }
+                    for (torn, keep) in variants {
+                        let mut files = std::collections::BTreeMap::new();
+                        for (idx, (is_write, key, data)) in hist[..cut].iter().enumerate() {
+                            if *is_write {
+                                let d = if idx + 1 == cut { keep.map(|k| data[..k].to_vec()).unwrap_or_else(|| data.clone()) } else { data.clone() };
+                                files.insert(key.clone(), d);
+                            } else {
+                                files.remove(key);
+                            }
+                        }
+                        let nblocks = files.iter().filter(|(k, _)| k.ends_with(".sai")).count();
+                        let intact = files.iter().filter(|(k, v)| k.ends_with(".sai") && Block::deserialize_from_net(v).is_ok()).count();
+                        wd.pet(&format!("scn {} step {} crash image cut {} {}", scn_no, r.step_no, cut, torn));
+                        let (res, booted) = r.boot(files);
+                        let mut ext = "none".to_string();
+                        let mut stv = json!({});
+                        if let Some(mut n) = booted {
+                            stv = r.state(&n);
+                            let tipl = stv["tip"].as_str().unwrap_or("?").to_string();
+                            if r.blocks.contains_key(&tipl) {
+                                // the restarted node must be able to go on: one more honest block on its tip
+                                let pb = r.blocks[&tipl].block.clone();
+                                let ts = pb.timestamp + 4 * r.world.hb;
+                                let creator = r.world.keys["c"];
+                                let gt = gt_for(&pb, &r.world.keys["m"], &creator, ts, 4242);
+                                let rt2 = r.rt;
+                                let built = guarded(|| {
+                                    let mut b = r.builder_on(&tipl);
+                                    rt2.block_on(b.create_block(&creator, spec_for(pb.hash, ts, vec![], Some(gt))))
+                                });
+                                ext = match built {
+                                    Ok(Ok(nb)) => {
+                                        let wire = block_over_wire(&nb);
+                                        match guarded(|| rt2.block_on(n.add_block(wire))) {
+                                            Ok(o) => o.name(),
+                                            Err(p) => format!("Panic:{}", p),
+                                        }
+                                    }
+                                    Ok(Err(e)) => format!("unbuildable:{}", e),
+                                    Err(p) => format!("builder-panicked:{}", p),
+                                };
+                            }
+                        }
+                        wd.pause();
+                        trace.emit(json!({"ev": "Crash", "scn": scn_no, "i": r.step_no, "cut": cut, "of": hist.len(), "torn": torn, "res": res,
+                            "pretip": pretip, "st": stv, "extend": ext, "nblocks": nblocks, "intact": intact, "tag": st.tag}));
+                    }
+                }
+            }
             "needed" => {
                 // samples of the requirement function itself, in ascending elapsed time
                 for dt in st.dts.iter() {
